@@ -1041,6 +1041,7 @@ package rapid
 //@ ghost rejectedAttempt Bool
 
 //@ func genAnyMap$1
+//@   captures [C04,C15] keyGen, valGen, typ
 //@   noframe "builds a map through reflection"
 //@   nosafety "reflection calls are abstracted"
 //@   ensures [C04] true
@@ -1058,3 +1059,27 @@ package rapid
 //@   panics invalidData: true
 //@   modifies drawn, lastWord
 //@   at s.drawBits#0 witness [C18] v
+
+// ---------------------------------------------------------------------------------------------
+// Closure frames: the function values rapid hands out must not carry hidden state. A generator's drawing function
+// may capture only the (immutable) parameters it was constructed from - scratch state shared between draws would
+// be shared between concurrently running checks (C15); the fuzz target may capture only the property (C13).
+
+//@ func genAnyPointer$1
+//@   captures [C15] elemGen, elem, typ
+//@   trusted "reflection: only the closure frame is checked"
+//@ func genAnyArray$1
+//@   captures [C15] typ, count, elemGen
+//@   trusted "reflection: only the closure frame is checked"
+//@ func genAnySlice$1
+//@   captures [C15] elemGen, typ
+//@   trusted "reflection: only the closure frame is checked"
+//@ func genAnyStruct$1
+//@   captures [C15] typ, numFields, fieldGens
+//@   trusted "reflection: only the closure frame is checked"
+//@ func MakeFuzz$1
+//@   captures [C13] prop
+//@   trusted "only the closure frame is checked; the body is checkFuzz"
+//@ func MakeCheck$1
+//@   captures [C13] prop
+//@   trusted "only the closure frame is checked; the body is checkTB"
